@@ -25,6 +25,7 @@ from jsonpath.exceptions import JSONPointerError
 from jsonpath.exceptions import JSONPointerIndexError
 from jsonpath.exceptions import JSONPointerKeyError
 from jsonpath.exceptions import JSONPointerTypeError
+from jsonpath.pointer import RE_INDEX
 from jsonpath.pointer import UNDEFINED
 from jsonpath.pointer import JSONPointer
 
@@ -61,9 +62,18 @@ def _resolve_target(
         if isinstance(parent, Mapping):
             if _member_name(parent, target) not in parent:
                 obj = UNDEFINED
-        elif isinstance(parent, Sequence) and not isinstance(target, int):
+        elif isinstance(parent, Sequence) and not _is_index(target):
             obj = UNDEFINED
     return parent, obj
+
+
+def _is_index(key: Union[int, str]) -> bool:
+    """Return `True` if reference token _key_ is an array index.
+
+    Depending on how a pointer was built, an index can be held as an int or as
+    a string of decimal digits.
+    """
+    return isinstance(key, int) or bool(RE_INDEX.fullmatch(key))
 
 
 def _array_index(key: Union[int, str]) -> int:
@@ -143,7 +153,9 @@ class OpAdd(Op):
         if isinstance(parent, MutableSequence):
             if obj is UNDEFINED:
                 # An index equal to the length of the array appends, like "-".
-                if target == "-" or target == len(parent):
+                if target == "-" or (
+                    _is_index(target) and _array_index(target) == len(parent)
+                ):
                     parent.append(value)
                 else:
                     raise JSONPatchError("index out of range")
